@@ -38,6 +38,40 @@ def build(spec):
         c2 = Component(f2, inputs=[y1, xs[names[-1]]], outputs=[y2], name='c2', vectorized=True,
                        data_fidelity=(2, 2), training_data=SparseGrid(**sgk))
         return System(c1, c2, name='s')
+    if spec['kind'] == 'conflict':
+        # the same variable NAME declared by several components with different, equally detailed definitions: which one
+        # the system keeps must be decided by the listing, not by string hashing
+        w = spec['w']
+        comps = []
+        for k, cname in enumerate(spec['comp_names']):
+            xa = Variable(names[0], domain=(0.0, 1.0 + k))          # another domain in every component
+            xb = Variable(names[1], domain=(0.0, 1.0))
+
+            def f(inputs, _k=k):
+                return {f'y{_k}': np.exp(w[0] * inputs[names[0]]) + (1 + _k) * w[1] * inputs[names[1]] ** 2}
+            comps.append(Component(f, inputs=[xa, xb], outputs=[Variable(f'y{k}')], name=cname, vectorized=True,
+                                   data_fidelity=(2, 2), training_data=SparseGrid(**sgk)))
+        return System(*comps, name='s')
+    if spec['kind'] == 'nansib':
+        # a producer with several consumers, one of which (no surrogate) is undefined on part of the domain: the order in which
+        # sibling branches are evaluated must not depend on string hashing
+        w = spec['w']
+        y0 = Variable('y0', domain=(0.0, 2.5))
+        prod = Component(lambda inputs: {'y0': 2.0 * inputs[names[0]] + 0.3 * inputs[names[1]]}, inputs=[xs[names[0]], xs[names[1]]],
+                         outputs=[y0], name=spec['comp_names'][0], vectorized=True, data_fidelity=(2, 1),
+                         training_data=SparseGrid(**sgk))
+        comps = [prod]
+        for k, cname in enumerate(spec['comp_names'][1:]):
+            if k == spec['nan_pos']:
+                with_nan = Component(lambda inputs: {f'z{k}': np.log(inputs['y0'] - 1.0)}, inputs=[y0], outputs=[Variable(f'z{k}')],
+                                     name=cname, vectorized=True)
+                comps.append(with_nan)
+            else:
+                def f(inputs, _k=k):
+                    return {f'z{_k}': np.sin((1 + _k) * w[0] * inputs['y0']) + w[1] * inputs[names[1]]}
+                comps.append(Component(f, inputs=[y0, xs[names[1]]], outputs=[Variable(f'z{k}')], name=cname, vectorized=True,
+                                       data_fidelity=(2, 1), training_data=SparseGrid(**sgk)))
+        return System(*comps, name='s')
     if spec['kind'] in ('twin', 'zero'):
         # ties: several components with EXACTLY equal (twin: same model, same inputs) or undefined (zero: the surrogate is
         # identically zero until a mixed index is activated, every indicator is 0/0) error indicators — the choice then rests
